@@ -135,29 +135,30 @@ class WriterCheck:
         from core import local_defs
         fn = self.fn
         defs = local_defs(fn)
-        der = {self.buf["d"]}
+
+        def is_ptr(d):
+            anyref = [x for x in fn.walk() if x.get("k") in ("DeclRefExpr", "Var") and x.get("d") == d]
+            return bool(anyref) and bool(fn.tu.types[anyref[0]["t"]].get("ptr"))
+        # greatest fixpoint: start from every pointer that has definitions and throw out those with a definition that mentions a
+        # pointer outside the set (so that a cursor and a mark taken from it, each defined through the other, stay in together)
+        der = {self.buf["d"]} | {d for d, rhss in defs.items() if rhss and is_ptr(d)}
         changed = True
         while changed:
             changed = False
-            for d, rhss in defs.items():
-                if d in der:
-                    continue
-                ok = bool(rhss)
-                for r in rhss:
+            for d in sorted(der - {self.buf["d"]}):
+                ok = True
+                for r in defs.get(d, []):
                     vars_ = [x for x in walk(r) if x.get("k") == "DeclRefExpr" and x.get("dk") in ("var", "parm")
                              and fn.tu.types[x["t"]].get("ptr")]
-                    if not vars_ or any(v["d"] not in der and v["d"] != d for v in vars_):
+                    if not vars_ or any(v["d"] not in der for v in vars_):
                         ok = False
                         break
                     if any(x.get("k") == "CallExpr" for x in walk(r) if x is not r) and strip(r).get("k") == "CallExpr":
                         ok = False
                         break
-                if ok:
-                    # must be a char pointer
-                    anyref = [x for x in fn.walk() if x.get("k") in ("DeclRefExpr", "Var") and x.get("d") == d]
-                    if anyref and fn.tu.types[anyref[0]["t"]].get("ptr"):
-                        der.add(d)
-                        changed = True
+                if not ok:
+                    der.discard(d)
+                    changed = True
         return der
 
     def _fail(self, site, node, msg):
